@@ -17,11 +17,13 @@ import (
 )
 
 type accessRec struct {
-	write  bool
-	atomic bool
-	thread int
-	locks  map[*value]int // 1 = shared, 2 = exclusive
-	pos    string
+	write   bool
+	atomic  bool
+	thread  int
+	locks   map[*value]int // 1 = shared, 2 = exclusive
+	pos     string
+	section int // critical-section instance (0 = outside any lock)
+	seq     int
 }
 
 type accessLog struct {
@@ -32,11 +34,14 @@ type accessLog struct {
 	owned   map[*value]int // cell -> owning thread
 	ownedMaps map[uintptr]int
 	lockOps map[int][]string
+	section map[int]int // thread -> current critical-section instance
+	nextSec int
+	seq     int
 }
 
 func (e *Exec) enableAccessLog() {
 	e.alog = &accessLog{enabled: true, recs: map[*value][]accessRec{}, maps: map[uintptr][]accessRec{},
-		held: map[int]map[*value]int{}, owned: map[*value]int{}, lockOps: map[int][]string{}}
+		held: map[int]map[*value]int{}, owned: map[*value]int{}, lockOps: map[int][]string{}, section: map[int]int{}}
 }
 
 func (e *Exec) lockOp(mu *value, op string) {
@@ -56,10 +61,17 @@ func (e *Exec) lockOp(mu *value, op string) {
 	switch op {
 	case "Lock":
 		h[mu] = 2
+		a.nextSec++
+		a.section[e.thread] = a.nextSec
 	case "RLock":
 		h[mu] = 1
+		a.nextSec++
+		a.section[e.thread] = a.nextSec
 	case "Unlock", "RUnlock":
 		delete(h, mu)
+		if len(h) == 0 {
+			a.section[e.thread] = 0
+		}
 	}
 }
 
@@ -98,12 +110,14 @@ func (e *Exec) access(addr *value, write, atomic bool) {
 	rs := a.recs[addr]
 	// keep the log small: one record per (thread, write, atomic, lockset shape) per cell
 	locks := e.snapshotLocks()
+	sec := a.section[e.thread]
 	for _, r := range rs {
-		if r.thread == e.thread && r.write == write && r.atomic == atomic && sameLocks(r.locks, locks) {
+		if r.thread == e.thread && r.write == write && r.atomic == atomic && r.section == sec && sameLocks(r.locks, locks) {
 			return
 		}
 	}
-	a.recs[addr] = append(rs, accessRec{write: write, atomic: atomic, thread: e.thread, locks: locks, pos: e.curPos()})
+	a.seq++
+	a.recs[addr] = append(rs, accessRec{write: write, atomic: atomic, thread: e.thread, locks: locks, pos: e.curPos(), section: sec, seq: a.seq})
 }
 
 func (e *Exec) accessMap(id uintptr, write bool) {
@@ -285,6 +299,30 @@ func (e *Exec) finishAccessLog() {
 	}
 	for _, rs := range a.recs {
 		check(rs, "cell")
+	}
+	// (A) atomicity of read-modify-write: a thread that writes a shared cell inside an exclusive
+	// critical section must not base that write on a read of the same cell made in an earlier,
+	// different critical section (or outside any): another writer may have intervened.
+	for _, rs := range a.recs {
+		for _, w := range rs {
+			if !w.write || w.atomic || w.section == 0 {
+				continue
+			}
+			for _, r := range rs {
+				if r.write || r.atomic || r.thread != w.thread || r.seq > w.seq || r.section == w.section {
+					continue
+				}
+				key := fmt.Sprintf("%s|%s", r.pos, w.pos)
+				if seen["A"+key] {
+					continue
+				}
+				seen["A"+key] = true
+				e.races = append(e.races, fmt.Sprintf("stale read-modify-write: read(%s) in section %d, write(%s) in section %d", r.pos, r.section, w.pos, w.section))
+				e.stats.Obligations++
+				e.stats.Violated++
+				e.recordFinding("race", "non-atomic-update:"+key, key, nil)
+			}
+		}
 	}
 	for _, rs := range a.maps {
 		check(rs, "map")
